@@ -621,7 +621,18 @@ func streamEngine(args []string, in *bufio.Scanner, out *bufio.Writer) {
 				finished := false
 				var perr error
 				last, lastChange := int32(-1), time.Now()
-				for !finished && time.Since(lastChange) < 300*time.Millisecond {
+				// "stopped making progress" = no append finished for 300 ms WHILE some job queue is full (that is what an append can be
+				// waiting for); without a full queue the appending goroutine is merely not being scheduled (loaded machine) and the
+				// client must not start reading yet, or the script would not be the one that was asked for
+				anyFull := func() bool {
+					for _, t := range c.streams {
+						if j := t.jobs.Load(); j != nil && j.Cap() > 0 && j.Len() >= j.Cap() {
+							return true
+						}
+					}
+					return false
+				}
+				for !finished && (time.Since(lastChange) < 300*time.Millisecond || (!anyFull() && time.Since(lastChange) < 5*watchdog())) {
 					select {
 					case perr = <-done:
 						finished = true
